@@ -383,7 +383,17 @@ def add_same_transaction_conflict_pattern(D, rnd):
 
 
 def module_chunks(D):
+    """The top-level bodies of every elaboratable (TModule). The partition is FIXED when the module-level wrappers are placed: bodies that a forced
+    layout class appends afterwards go to the last module, so that two bodies wrapped into the alternatives of one module-level If/Else can never
+    drift into different modules (which would make them exclusive for the reference but not for the library)."""
     order = list(D.order)
+    fixed = getattr(D, "fixed_chunks", None)
+    if fixed is not None:
+        present = {b.key: b for b in order}
+        chunks = [[present[k] for k in ch if k in present] for ch in fixed]
+        seen = {k for ch in fixed for k in ch}
+        chunks[-1] += [b for b in order if b.key not in seen]
+        return [ch for ch in chunks if ch]
     nmod = max(1, min(getattr(D, "nmod", 1), len(order)))
     size = -(-len(order) // nmod)
     return [order[i:i + size] for i in range(0, len(order), size)]
@@ -404,6 +414,7 @@ def add_module_level_wrappers(D, rnd, p):
     """Some top-level bodies are *defined* under a module-level If / Else of their elaboratable (two neighbours of one module may share one
     If/Else, which makes their definitions mutually exclusive alternatives; bodies in different modules never are)."""
     D.modwrap = {}
+    D.fixed_chunks = [[b.key for b in ch] for ch in module_chunks(D)]
     for chunk in module_chunks(D):
         i = 0
         while i < len(chunk):
